@@ -1256,6 +1256,27 @@ class ABCPropertyGraph(ABCPropertyGraphConstants):
         assert component.node_id is not None
         assert parent_node_id is not None
 
+        # validate before anything is added: the parent must exist and the ids this call is going to add
+        # (component, its network services, their interfaces) must be new and pairwise distinct, so that
+        # a duplicate id cannot leave a half-built component behind
+        self.get_node_properties(node_id=parent_node_id)
+        new_ids = [component.node_id]
+        if component.network_service_info is not None:
+            for ns in component.network_service_info.network_services.values():
+                new_ids.append(ns.node_id)
+                if ns.interface_info is not None:
+                    new_ids.extend(i.node_id for i in ns.interface_info.interfaces.values())
+        if len(set(new_ids)) != len(new_ids):
+            raise PropertyGraphQueryException(graph_id=self.graph_id, node_id=component.node_id,
+                                              msg="Unable to add component - its node ids are not pairwise distinct")
+        for new_id in new_ids:
+            try:
+                self.get_node_properties(node_id=new_id)
+            except PropertyGraphQueryException:
+                continue
+            raise PropertyGraphQueryException(graph_id=self.graph_id, node_id=new_id,
+                                              msg="Unable to add component - a node with this ID exists")
+
         props = self.component_sliver_to_graph_properties_dict(component)
         self.add_node(node_id=component.node_id, label=ABCPropertyGraph.CLASS_Component, props=props)
         self.add_link(node_a=parent_node_id, rel=ABCPropertyGraph.REL_HAS, node_b=component.node_id)
